@@ -20,7 +20,7 @@ RULE = ("16 single and 11 bulk create functions x sectors {all, gas, water, heat
 ASSUMPTIONS = ["a refused call is one that raises any exception"]
 CONFIG = {"quick": {"shards": 4, "timeout_s": 600, "cases": 120},
           "thorough": {"shards": 16, "timeout_s": 3000, "cases": 4000}}
-REQUIRED_COUNTERS = ["successful_creations_checked", "refused_creations_checked", "default_values_checked", "passed_values_checked",
+REQUIRED_COUNTERS = ["invalid_uncontrollable_behind_other_controller", "successful_creations_checked", "refused_creations_checked", "default_values_checked", "passed_values_checked",
                      "dtype_checks", "bulk_vs_single_checks", "bulk_argument_as_series", "bulk_argument_as_ndarray", "std_type_vs_parameters_checks", "pipeflow_on_default_elements",
                      "invalid_missing_junction", "invalid_duplicate_index", "invalid_unknown_std_type", "invalid_missing_pipe",
                      "invalid_setpoints", "invalid_geodata", "documented_defaults_parsed"]
@@ -165,6 +165,41 @@ def call(fn, net, kwargs):
         return fn(net, **kwargs), None
     except Exception as e:   # any refusal
         return None, e
+
+
+def series_controllers(obs, rng):
+    """j0 -[PC_B]- j1 = j2 -[PC_A]- j3 = j4: PC_A exists; PC_B naming j4 (behind PC_A) as controlled junction must not be created
+    ("no other pressure control unit is inbetween"), PC_B naming j2 (reached over a pipe only) must be."""
+    import pandapipes as pp
+    net = pp.create_empty_network(fluid="water")
+    labels = [int(x) for x in rng.permutation(5) + int(rng.choice([0, 10]))]
+    j = [pp.create_junction(net, 5.0, 300.0, index=l) for l in labels]
+    pp.create_ext_grid(net, j[0], 6.0, 300.0)
+    pp.create_pipe_from_parameters(net, j[1], j[2], 0.1, 100.0)
+    pp.create_pipe_from_parameters(net, j[3], j[4], 0.1, 100.0)
+    pp.create_sink(net, j[4], 0.2)
+    pp.create_pressure_control(net, j[2], j[3], j[3], 3.0)
+    b4 = fingerprint(net, include_results=True)
+    ridx, rexc = call(pp.create_pressure_control, net, dict(from_junction=j[0], to_junction=j[1], controlled_junction=j[4], controlled_p_bar=2.5))
+    obs.count("refused_creations_checked")
+    obs.count("invalid_uncontrollable_behind_other_controller")
+    desc = {"function": "create_pressure_control", "junction_labels": labels}
+    if len(net.press_control) != 1:
+        obs.violate("uncontrollable_pressure_control_accepted", "create_pressure_control created a controller whose controlled junction lies behind "
+                    "another pressure controller (returned %r)" % (ridx,), **desc)
+        net.press_control.drop(net.press_control.index[1:], inplace=True)
+    else:
+        if rexc is None and ridx is None:
+            obs.violate("pressure_control_returns_none", "create_pressure_control neither created a row nor raised for an "
+                        "uncontrollable controlled junction (returned None)", **desc)
+        ch = diff(b4, fingerprint(net, include_results=True))
+        if ch:
+            obs.violate("failed_create_changes_net", "refused create_pressure_control changed %s" % ch[:6], **desc)
+    ridx, rexc = call(pp.create_pressure_control, net, dict(from_junction=j[0], to_junction=j[1], controlled_junction=j[2], controlled_p_bar=4.5))
+    obs.count("valid_creations_checked")
+    if rexc is not None or ridx is None or len(net.press_control) != 2:
+        obs.violate("valid_remote_pressure_control_refused", "create_pressure_control refused a controlled junction reached over a pipe only (%r / %r)"
+                    % (ridx, rexc), **desc)
 
 
 def run_case(case, ctx):
@@ -315,6 +350,8 @@ def run_case(case, ctx):
                         net.junction.drop(last, inplace=True)
                         if "junction_geodata" in net and last in net.junction_geodata.index:
                             net.junction_geodata.drop(last, inplace=True)
+    # ---------------- a controlled junction that lies behind another pressure controller is documented to be refused
+    series_controllers(obs, rng)
     # ---------------- bulk == loop of singles
     for single, bulk in BULK.items():
         if single not in S:
